@@ -77,6 +77,14 @@ Theorem c12_weight_link_rate : forall rate : f32,
 Proof. exact weight_exact_link_rate. Qed.
 Print Assumptions c12_weight_link_rate.
 
+(* UNBIASED, END TO END: for every f32 rate in [2^-52, 1], the weights the bit-exact computation hands out over the
+   2^53 equally likely 53-bit draws add up to exactly 2^53 x the computed inverse rate: the mean weight is 1/rate *)
+Theorem c12_weight_unbiased : forall rate : f32,
+  Binary.is_finite 24 128 rate = true -> 0 < R32 rate -> R32 rate <= 1 -> bpow radix2 (-52) <= R32 rate ->
+  IZR (Z.of_N (sum_below (fun k => rate_to_n rate (k * 2 ^ 11)) two53)) = bpow radix2 53 * inv_real rate.
+Proof. exact weight_unbiased. Qed.
+Print Assumptions c12_weight_unbiased.
+
 (* the computed inverse is 1/rate correctly rounded to binary64 *)
 Theorem c12_inverse_correctly_rounded : forall rate : f32, 0 < R32 rate -> R32 rate <= 1 ->
   Rabs (inv_real rate - 1 / R32 rate) <= bpow radix2 (-53) * Rabs (1 / R32 rate).
